@@ -29,6 +29,12 @@ def _triple(mod):
         for c in walk_local(mid.node):
             if isinstance(c, ast.Call) and isinstance(c.func, ast.Name) and c.func.id in mod.functions and c.func.id.endswith("_raw"):
                 raw = mod.functions[c.func.id]
+        if raw is None:
+            # whatever it is called: the one generator function of the module that the wrapper calls
+            gens = [mod.functions[c.func.id] for c in walk_local(mid.node) if isinstance(c, ast.Call) and isinstance(c.func, ast.Name) and c.func.id in mod.functions
+                    and any(isinstance(y, (ast.Yield, ast.YieldFrom)) for y in walk_local(mod.functions[c.func.id].node))]
+            if len({g.name for g in gens}) == 1:
+                raw = gens[0]
     if mid is None or raw is None:
         raise AnalysisError("anchor vanished: wrapper / raw generator of %s" % name)
     return name, pub, mid, raw
@@ -68,6 +74,47 @@ def multimap_inserts(P, R, rid, modules):
                     R.ok(rid, "%s: %s" % (f.qualname, short(c, 50)), f.loc(st))
     R.count("name-map insertions (%s)" % rid, n)
     R.floor("name-map insertions (%s)" % rid, 3)
+
+
+def cache_keys(P, R, rid, modules):
+    """a module-level dict used as a cache answers a later call from what an earlier call stored: the key must name everything the stored
+    value was computed from.  `_compiled[pattern] = re.compile(pattern, flags=… is_case …)` answers a case-insensitive query with
+    whichever flags the first query with that pattern had."""
+    R.rule(rid, "module-level caches are keyed by every parameter the cached value depends on")
+    n = 0
+    for mod in modules:
+        caches = {st.targets[0].id for st in mod.tree.body if isinstance(st, ast.Assign) and len(st.targets) == 1 and isinstance(st.targets[0], ast.Name)
+                  and ((isinstance(st.value, ast.Dict) and not st.value.keys) or (isinstance(st.value, ast.Call) and norm(st.value.func) in ("dict", "OrderedDict", "weakref.WeakKeyDictionary")
+                                                                                 and not st.value.args))}
+        if not caches:
+            continue
+        for f in mod.all_funcs():
+            params = set(f.params)
+            for a in walk_local(f.node):
+                if not (isinstance(a, ast.Assign) and len(a.targets) == 1 and isinstance(a.targets[0], ast.Subscript) and isinstance(a.targets[0].value, ast.Name)
+                        and a.targets[0].value.id in caches):
+                    continue
+                n += 1
+                key_names = {x.id for x in ast.walk(a.targets[0].slice) if isinstance(x, ast.Name)} & params
+                v = a.value
+                if isinstance(v, ast.Name):
+                    d = reaching_assign(a, v.id)
+                    v = d.value if d is not None and isinstance(d, ast.Assign) else v
+                val_names = {x.id for x in ast.walk(v) if isinstance(x, ast.Name)} & params
+                # names that only select the key's own pieces are covered by local definitions of the key
+                if isinstance(a.targets[0].slice, ast.Name):
+                    d = reaching_assign(a, a.targets[0].slice.id)
+                    if d is not None and isinstance(d, ast.Assign):
+                        key_names |= {x.id for x in ast.walk(d.value) if isinstance(x, ast.Name)} & params
+                missing = sorted(val_names - key_names)
+                if missing:
+                    R.bad(rid, "%s|cache %s|%s" % (f.key, a.targets[0].value.id, ",".join(missing)), f.loc(a),
+                          "%s stores `%s` in the module-level cache `%s` under `%s`, but the value also depends on %s: a later call that differs only there "
+                          "is answered with the first call's value" % (f.qualname, short(v, 50), a.targets[0].value.id, short(a.targets[0].slice, 30), ", ".join("`%s`" % m_ for m_ in missing)))
+                else:
+                    R.ok(rid, "%s: %s" % (f.qualname, short(a, 50)), f.loc(a))
+    R.count("module-level cache stores (%s)" % rid, n)
+    return n
 
 
 def _family(P):
@@ -982,3 +1029,5 @@ def check_c13(ctx, R):
     _q5(ctx, R)
     _q9(ctx, R)
     multimap_inserts(ctx.P, R, "Q10", _modules(ctx.P))
+    if cache_keys(ctx.P, R, "Q11", _modules(ctx.P) + [ctx.P.module(PAT)]) == 0:
+        R.ok("Q11", "the query family keeps no module-level cache")
